@@ -20,6 +20,7 @@ func protoOrTransport(rel string) bool {
 }
 
 func runC10(p *Prog, r *Report) {
+	runSweeps(p, r, "C10.14/close-sweeps", "every loop by which a Close closes all pipes, endpoints, contexts, pending connections or blocked accepters visits every entry: none can be left early", closeSweeps)
 	r.Describe("C10.1/E4c", "every blocking select has a receive case on a channel closed by Close/RemovePipe; per-pipe goroutines wait on their own pipe's close channel")
 	e4CloseAwareSelects(p, r, "C10.1/E4c", protoOrTransport)
 	r.Floor("C10.1/E4c", "e4c.blocking_selects", 44)
